@@ -381,12 +381,25 @@ class C09(AsmPlan):
             r = find(spec, tag)
             if r is not None:
                 out += [' '.join(str(x) for x in [11] + cfg + r[1:]), ' '.join(str(x) for x in [10] + cfg + r[1:])]
+        # further comment lines are layout too: the ;redcode line of a posted warrior, more than once (in front, between
+        # two lines, at the end), and - for one case in sixty-four - a comment line longer than 64 KiB in front
+        r = find(spec, 61)
+        if r is not None and len(out) == 4:
+            ls = bytes(r[1:]).split(b'\n')
+            mid = 1 + (sum(ints) % max(1, len(ls) - 1))
+            v = [b';redcode-94'] + ls[:mid] + [b';redcode', b';REDCODE quiet'] + ls[mid:]
+            t = list(b'\n'.join(v))
+            out += [' '.join(str(x) for x in [11] + cfg + t), ' '.join(str(x) for x in [10] + cfg + t)]
+            if sum(ints) % 64 == 0:
+                t = list(b';' + b'-' * 70000 + b'\n' + bytes(r[1:]))
+                out += [' '.join(str(x) for x in [11] + cfg + t), ' '.join(str(x) for x in [10] + cfg + t)]
         return out
 
     def judge(self, ints, spec, idx, conc, impl):
         why = AsmPlan.judge(self, ints, spec, 1, conc, impl)
         if why:
-            return ('load-file-reader: ' if idx % 2 == 0 else 'assembler: ') + ('(canonical layout) ' if idx >= 2 else '') + why
+            return ('load-file-reader: ' if idx % 2 == 0 else 'assembler: ') + ('', '', '(canonical layout) ', '(canonical layout) ', '(with ;redcode comment lines) ', '(with ;redcode comment lines) ',
+                                                                                   '(behind a comment line of 70000 characters) ', '(behind a comment line of 70000 characters) ')[min(idx, 7)] + why
         return None
 
     def shrink(self, ints):
